@@ -32,11 +32,11 @@ WATCHDOG_S = 5
 MAX_TIMEOUTS_PER_UNIT = 2
 
 
-class Timeout(Exception):
+class Timeout(BaseException):
     pass
 
 
-class UnitAborted(Exception):
+class UnitAborted(BaseException):
     pass
 
 
@@ -299,7 +299,7 @@ def _unit_body(unit, tier, acc, timeouts):
 
 def replay(payload):
     signal.signal(signal.SIGALRM, _alarm)
-    signal.setitimer(signal.ITIMER_REAL, WATCHDOG_S)
+    signal.setitimer(signal.ITIMER_REAL, 2)
     try:
         if payload.get('kind') == 'scale':
             from mc import wrgraph
